@@ -14,6 +14,7 @@ import (
 // ---------------------------------------------------------------- implementation side
 
 type dImpl struct {
+	big bool
 	l   [2]*listz.DList[int]
 	h   []*listz.DNode[int] // handle id -> node; ids 0,1 are the sentinels (never used as handles)
 	ids map[*listz.DNode[int]]int
@@ -71,23 +72,132 @@ func (d *dImpl) dump(l *listz.DList[int]) string {
 		v = append(v, strconv.Itoa(x))
 		n++
 	}
-	// iter.go: an early break must stop the iterator after exactly the yielded prefix
-	if k := len(v) / 2; k > 0 {
-		var pre []string
-		for x := range l.All() {
-			pre = append(pre, strconv.Itoa(x))
-			if len(pre) == k {
-				break
-			}
-		}
-		if strings.Join(pre, " ") != strings.Join(v[:k], " ") {
-			v = append(v, "all-break!")
-		}
+	if !breakOK(l.All(), v) {
+		v = append(v, "all-break!")
 	}
 	return fmt.Sprintf("%d f[%s] b[%s] v[%s]", l.Len(), strings.Join(f, " "), strings.Join(b, " "), strings.Join(v, " "))
 }
 
-func (d *dImpl) dumpAll() string { return d.dump(d.l[0]) + " | " + d.dump(d.l[1]) }
+// breakOK: iter.go — an early break must stop the iterator after exactly the yielded prefix;
+// tried at every position class: after 1, 2, n/2, n-2, n-1 values (and never, by the caller).
+func breakOK(seq func(func(int) bool), v []string) bool {
+	n := len(v)
+	for _, k := range []int{1, 2, n / 2, n - 2, n - 1} {
+		if k <= 0 || k >= n {
+			continue
+		}
+		cnt := 0
+		for x := range seq {
+			if strconv.Itoa(x) != v[cnt] {
+				return false
+			}
+			cnt++
+			if cnt == k {
+				break
+			}
+		}
+		if cnt != k {
+			return false
+		}
+	}
+	return true
+}
+
+// ---- digests of long traversals (header flag `big`): count and polynomial hash
+
+const (
+	bigCap    = 200000
+	digestMod = 2147483647
+)
+
+type digest struct {
+	n   int
+	h   uint64
+	cut bool
+}
+
+func (g *digest) add(x int) {
+	m := ((int64(x)+11)%digestMod + digestMod) % digestMod
+	g.n++
+	g.h = (g.h*1000003 + uint64(m)) % digestMod
+}
+
+func (g *digest) String() string {
+	s := fmt.Sprintf("%d:%d", g.n, g.h)
+	if g.cut {
+		s += "!"
+	}
+	return s
+}
+
+func (d *dImpl) idOf(e *listz.DNode[int]) int {
+	if id, ok := d.ids[e]; ok {
+		return id
+	}
+	return -5
+}
+
+func (d *dImpl) dumpBig(l *listz.DList[int]) string {
+	var f, b, v, v2 digest
+	for e := l.Front(); e != nil; e = e.Next() {
+		if f.n == bigCap {
+			f.cut, v.cut = true, true
+			break
+		}
+		f.add(d.idOf(e))
+		v.add(e.Value)
+	}
+	for e := l.Back(); e != nil; e = e.Prev() {
+		if b.n == bigCap {
+			b.cut = true
+			break
+		}
+		b.add(d.idOf(e))
+	}
+	// iter.go: full iteration and early breaks at every position class must agree with Front/Next
+	n := f.n
+	for x := range l.All() {
+		if v2.n == bigCap {
+			v2.cut = true
+			break
+		}
+		v2.add(x)
+	}
+	vs := v.String()
+	if v2.String() != vs {
+		vs += "all!"
+	}
+	for _, k := range []int{1, 2, n / 2, n - 2, n - 1} {
+		if k <= 0 || k >= n {
+			continue
+		}
+		cnt, e := 0, l.Front()
+		ok := true
+		for x := range l.All() {
+			if e == nil || x != e.Value {
+				ok = false
+				break
+			}
+			e = e.Next()
+			cnt++
+			if cnt == k {
+				break
+			}
+		}
+		if !ok || cnt != k {
+			vs += "all-break!"
+			break
+		}
+	}
+	return fmt.Sprintf("%d f~%s b~%s v~%s", l.Len(), f.String(), b.String(), vs)
+}
+
+func (d *dImpl) dumpAll() string {
+	if d.big {
+		return d.dumpBig(d.l[0]) + " | " + d.dumpBig(d.l[1])
+	}
+	return d.dump(d.l[0]) + " | " + d.dump(d.l[1])
+}
 
 func listIdx(t string) int {
 	switch t {
@@ -104,7 +214,9 @@ func implD(c core.Case) []string {
 	d.h = []*listz.DNode[int]{nil, nil}
 	return core.RunOps(c,
 		func(hdr []string) string {
-			if len(hdr) != 3 {
+			if len(hdr) == 4 && hdr[3] == "big" {
+				d.big = true
+			} else if len(hdr) != 3 {
 				return "bad-op"
 			}
 			for i := 0; i < 2; i++ {
@@ -141,6 +253,31 @@ func (d *dImpl) step(t []string) string {
 		return "bad-op"
 	}
 	op := t[0]
+	if op == "pushn" || op == "removen" || op == "removebn" {
+		if len(t) != 3 || listIdx(t[1]) < 0 {
+			return "bad-op"
+		}
+		k, err := strconv.Atoi(t[2])
+		if err != nil || k < 0 || strings.HasPrefix(t[2], "+") || strings.HasPrefix(t[2], "-") {
+			return "bad-op"
+		}
+		l := d.l[listIdx(t[1])]
+		for i := 0; i < k; i++ {
+			switch op {
+			case "pushn":
+				d.reg(l.PushBack(i % 10))
+			case "removen":
+				if e := l.Front(); e != nil {
+					l.Remove(e)
+				}
+			default:
+				if e := l.Back(); e != nil {
+					l.Remove(e)
+				}
+			}
+		}
+		return "ok"
+	}
 	arity := map[string]string{
 		"new": "v", "init": "l", "pf": "lv", "pb": "lv", "ib": "lvh", "ia": "lvh",
 		"pfn": "lh", "pbn": "lh", "inb": "lhh", "ina": "lhh", "mtf": "lh", "mtb": "lh",
@@ -260,9 +397,10 @@ func (d *dImpl) step(t []string) string {
 // ---------------------------------------------------------------- independent oracle: container/list
 
 type dRef struct {
-	l  [2]*list.List
-	h  []*list.Element // handle id -> element (stale elements are kept: container/list guards them itself)
-	id map[*list.Element]int
+	big bool
+	l   [2]*list.List
+	h   []*list.Element // handle id -> element (stale elements are kept: container/list guards them itself)
+	id  map[*list.Element]int
 }
 
 func (d *dRef) reg(e *list.Element) int {
@@ -289,6 +427,33 @@ func (d *dRef) dump(l *list.List) string {
 		b = append(b, d.show(e))
 	}
 	return fmt.Sprintf("%d f[%s] b[%s] v[%s]", l.Len(), strings.Join(f, " "), strings.Join(b, " "), strings.Join(v, " "))
+}
+
+func (d *dRef) dumpBig(l *list.List) string {
+	var f, b, v digest
+	for e := l.Front(); e != nil; e = e.Next() {
+		if f.n == bigCap {
+			f.cut, v.cut = true, true
+			break
+		}
+		f.add(d.id[e])
+		v.add(e.Value.(int))
+	}
+	for e := l.Back(); e != nil; e = e.Prev() {
+		if b.n == bigCap {
+			b.cut = true
+			break
+		}
+		b.add(d.id[e])
+	}
+	return fmt.Sprintf("%d f~%s b~%s v~%s", l.Len(), f.String(), b.String(), v.String())
+}
+
+func (d *dRef) dumpAll() string {
+	if d.big {
+		return d.dumpBig(d.l[0]) + " | " + d.dumpBig(d.l[1])
+	}
+	return d.dump(d.l[0]) + " | " + d.dump(d.l[1])
 }
 
 // live reports whether the element is currently linked into one of the two lists.
@@ -323,13 +488,13 @@ func (d *dRef) rebind(old, nu *list.Element) {
 
 func checkD(c core.Case, out []string) *core.Failure {
 	hdr := core.Toks(c.Lines[0])
-	if len(hdr) != 5 {
+	if len(hdr) != 5 && !(len(hdr) == 6 && hdr[5] == "big") {
 		return nil
 	}
-	d := &dRef{id: map[*list.Element]int{}}
+	d := &dRef{id: map[*list.Element]int{}, big: len(hdr) == 6}
 	d.l[0], d.l[1] = list.New(), list.New()
 	d.h = []*list.Element{nil, nil}
-	want := "ok | " + d.dump(d.l[0]) + " | " + d.dump(d.l[1])
+	want := "ok | " + d.dumpAll()
 	if out[0] != want {
 		return &core.Failure{Key: "dlist-zero-value", Desc: fmt.Sprintf("fresh lists: implementation %q, container/list %q", out[0], want)}
 	}
@@ -337,6 +502,34 @@ func checkD(c core.Case, out []string) *core.Failure {
 		t := core.Toks(c.Lines[i])
 		if len(t) == 0 {
 			return nil
+		}
+		if t[0] == "pushn" || t[0] == "removen" || t[0] == "removebn" {
+			if len(t) != 3 || listIdx(t[1]) < 0 {
+				return nil
+			}
+			k, err := strconv.Atoi(t[2])
+			if err != nil || k < 0 {
+				return nil
+			}
+			l := d.l[listIdx(t[1])]
+			for n := 0; n < k; n++ {
+				switch t[0] {
+				case "pushn":
+					d.reg(l.PushBack(n % 10))
+				case "removen":
+					if e := l.Front(); e != nil {
+						l.Remove(e)
+					}
+				default:
+					if e := l.Back(); e != nil {
+						l.Remove(e)
+					}
+				}
+			}
+			if want := "ok | " + d.dumpAll(); out[i] != want {
+				return &core.Failure{Key: "dlist-" + t[0], Desc: fmt.Sprintf("op %d %q: implementation answered %q, container/list gives %q", i, c.Lines[i], clip(out[i]), clip(want))}
+			}
+			continue
 		}
 		var ls []*list.List
 		var hs []*list.Element
@@ -465,12 +658,19 @@ func checkD(c core.Case, out []string) *core.Failure {
 		case "prev":
 			res = d.show(hs[0].Prev())
 		}
-		want := res + " | " + d.dump(d.l[0]) + " | " + d.dump(d.l[1])
+		want := res + " | " + d.dumpAll()
 		if out[i] != want {
-			return &core.Failure{Key: "dlist-" + t[0], Desc: fmt.Sprintf("op %d %q: implementation answered %q, container/list gives %q", i, c.Lines[i], out[i], want)}
+			return &core.Failure{Key: "dlist-" + t[0], Desc: fmt.Sprintf("op %d %q: implementation answered %q, container/list gives %q", i, c.Lines[i], clip(out[i]), clip(want))}
 		}
 	}
 	return nil
+}
+
+func clip(s string) string {
+	if len(s) > 600 {
+		return s[:600] + "…"
+	}
+	return s
 }
 
 // ---------------------------------------------------------------- generator
